@@ -414,7 +414,7 @@ Proof.
   assert (Hph : (abs_phase c = SP_WaitingForData_External /\ a_mech c = Some EXTERNAL /\ a_asked c = true /\ a_identity c = [] /\ a_cookie_id c = None) \/
                 (exists id, abs_phase c = SP_WaitingForData_Cookie id (a_challenge c) /\ a_mech c = Some COOKIE_SHA1 /\ a_cookie_id c = Some id /\
                             a_desired c = mkCreds (Some (e_process_uid e)) None None)).
-  { unfold abs_phase. rewrite Hs. destruct Hcase as [(M & Hq & Hi & Hck & Hd)|(M & [id Hck] & Hd)].
+  { unfold abs_phase. rewrite Hs. destruct Hcase as [(M & Hq & Hi & Hck & Hd)|(M & [id Hck] & Hd & _)].
     - left. rewrite M. auto.
     - right. exists id. rewrite M, Hck. auto. }
   cbn [sp_k abs].
